@@ -213,3 +213,150 @@ def v6_immutable_values(ctx):
 
 
 RULES = [('V1', v1_store_after_success), ('V3', v3_who_may_bind), ('V4', v4_keys), ('V5', v5_compare), ('V6', v6_immutable_values)]
+
+
+def v7_selection(ctx):
+    """V7 the variable that is substituted next is the closest match, the longest name among matches that start at the same
+    token: tabulated over the order types of up to three candidate matches (E6c). The selection touches positions and
+    lengths only through copies and comparisons (checked while walking), so three representatives per quantity cover every
+    value. Observed: the span that is drained and the binding that is inserted."""
+    import itertools
+    from ..absint import Machine, Unknown, Rep, is_ptr
+    ctx.rule('V7', 'closest-then-longest selection, tabulated over order types', floor=500)
+    u = ctx.facts.one(r'^variable::update_token_variables$')
+    ctx.fn(u)
+    fl = list(u.calls(r'^types::find_location$'))
+    if len(fl) != 1:
+        raise AnchorLost('update_token_variables: expected one find_location call, found %d' % len(fl))
+    fbid = fl[0][0]
+    loops = [L for L in u.loops() if fbid in L['body']]
+    if not loops:
+        raise AnchorLost('update_token_variables: find_location is not called in a loop over the bindings')
+    inner = min(loops, key=lambda L: len(L['body']))
+    nexts = [(bid, t) for bid, t in u.calls(r'Iterator>::next$') if bid in inner['body'] and u.dominates(bid, fbid)]
+    nexts = [x for x in nexts if not any(x[0] in L['body'] and L is not inner and len(L['body']) < len(inner['body']) for L in u.loops())]
+    if len(nexts) != 1:
+        raise AnchorLost('update_token_variables: expected one iterator driving the search over the bindings, found %d' % len(nexts))
+    next_term = nexts[0][1]
+    item_ty = u.locals.get(next_term['dest']['local'], '')
+    pair_items = '(&' in item_ty
+
+    def walk(cands):
+        """cands: [(item, pos, len)] in iteration order -> observation"""
+        script = list(cands)
+        info = {c[0]: c for c in cands}
+        obs = {}
+
+        def item_of(m, v):
+            v = m.deref_value(v)
+            if isinstance(v, tuple) and len(v) == 2 and v[0] in ('toks', 'key'):
+                return v[1]
+            return None
+
+        def model(m, path, args, t):
+            if t is next_term:
+                if not script:
+                    return m.make_adt('core::option::Option::None', [], [])
+                it = script.pop(0)[0]
+                m.env['h' + it] = {'__adt__': 'variable::VariableInfo', 'tokens': ('toks', it), 'data': ('sym', 'data:' + it), '__item__': it}
+                m.env['k' + it] = ('key', it)
+                val = ('ptr', 'h' + it, ())
+                if pair_items:
+                    val = ('tuple', [('ptr', 'k' + it, ()), val])
+                return m.make_adt('core::option::Option::Some', [val], [])
+            if re.search(r'Iterator>::next$', path):
+                return m.make_adt('core::option::Option::None', [], [])          # every other loop of the function is empty here
+            if path == 'types::find_location':
+                it = item_of(m, args[1])
+                if it is None:
+                    raise Unknown('find_location is asked for %r' % (m.deref_value(args[1]),))
+                return m.make_adt('core::option::Option::Some', [Rep(info[it][1])], [])
+            if re.search(r'Vec::<.*>::len$|slice::<impl \[T\]>::len$', path):
+                it = item_of(m, args[0])
+                if it is not None:
+                    return Rep(info[it][2])
+                return NotImplemented
+            if re.search(r'BTreeMap<.*> as core::ops::Index<.*>>::index$', path) and len(args) == 2:
+                it = item_of(m, args[1])
+                if it is None:
+                    raise Unknown('the bindings are indexed by %r' % (m.deref_value(args[1]),))
+                return ('ptr', 'h' + it, ())
+            if re.search(r'BTreeMap::<.*>::get$', path) and len(args) == 2:
+                it = item_of(m, args[1])
+                if it is None:
+                    raise Unknown('the bindings are looked up by %r' % (m.deref_value(args[1]),))
+                return m.make_adt('core::option::Option::Some', [('ptr', 'h' + it, ())], [])
+            if re.search(r'Vec::<.*>::drain$', path) and len(args) == 2:
+                r = m.deref_value(args[1])
+                if isinstance(r, dict) and 'start' in r and 'end' in r:
+                    obs['drain'] = (r['start'], r['end'])
+                else:
+                    raise Unknown('drain range %r' % (r,))
+                return ('sym', 'drain')
+            if re.search(r'Vec::<.*>::insert$', path) and len(args) == 3:
+                obs['insert'] = (args[1], args[2])
+                return ('sym', 'unit')
+            if re.search(r'Vec::<.*>::splice$', path) and len(args) == 3:
+                r = m.deref_value(args[1])
+                if isinstance(r, dict) and 'start' in r and 'end' in r:
+                    obs['drain'] = (r['start'], r['end'])
+                    obs['insert'] = (r['start'], args[2])
+                return ('sym', 'splice')
+            return NotImplemented
+
+        m = Machine(u, model, order_only=inner['body'])
+        why = m.run(0, on_call=lambda mm, path, a, t: 'insert' in obs)
+        return obs, why, m
+
+    def items_in(m, v, depth=0, seen=None):
+        out = set()
+        if depth > 12:
+            return out
+        if is_ptr(v):
+            return items_in(m, m.read(v[1], v[2]), depth + 1)
+        if isinstance(v, dict):
+            if '__item__' in v:
+                out.add(v['__item__'])
+                return out
+            for k, x in v.items():
+                if not k.startswith('__'):
+                    out |= items_in(m, x, depth + 1)
+        elif isinstance(v, tuple) and v and v[0] == 'tuple':
+            for x in v[1]:
+                out |= items_in(m, x, depth + 1)
+        return out
+
+    pairs = [(p, l) for p in (10, 20, 30) for l in (1, 2, 3)]
+    n = 0
+    bad = {}
+    for k in (1, 2, 3):
+        for seq in itertools.permutations(pairs, k):
+            cands = [('ABC'[i], p, l) for i, (p, l) in enumerate(seq)]
+            want = min(cands, key=lambda c: (c[1], -c[2]))
+            n += 1
+            try:
+                obs, why, m = walk(cands)
+            except Unknown as ex:
+                ctx.finding('V7', 'update_token_variables/selection/not-extractable',
+                            'the search for the next variable could not be tabulated: %s' % ex, site=fl[0][1]['loc'])
+                return
+            desc = ', '.join('%s at token %d of %d tokens' % (c[0], c[1], c[2]) for c in cands)
+            if 'drain' not in obs or 'insert' not in obs:
+                bad.setdefault('no-substitution', 'with matches [%s] (in map order) no substitution is made (walk ended: %s)' % (desc, why))
+                continue
+            got_items = items_in(m, obs['insert'][1])
+            s, e = obs['drain']
+            if got_items != {want[0]}:
+                bad.setdefault('wrong-binding', 'with matches [%s] (in map order) the inserted token carries binding %s; the closest, then longest match is %s'
+                               % (desc, '/'.join(sorted(got_items)) or '?', want[0]))
+            elif not (isinstance(s, int) and isinstance(e, int) and s == want[1] and e == want[1] + want[2] and obs['insert'][0] == s):
+                bad.setdefault('wrong-span', 'with matches [%s] (in map order) tokens %s..%s are replaced (inserted at %s); the chosen match %s spans %d..%d'
+                               % (desc, s, e, obs['insert'][0], want[0], want[1], want[1] + want[2]))
+            else:
+                ctx.ok('V7', 'matches [%s] -> %s substituted for tokens %d..%d' % (desc, want[0], s, e), 'table', site=fl[0][1]['loc'], sample=(n in (1, 40, 300)))
+    for kind, what in sorted(bad.items()):
+        ctx.finding('V7', 'update_token_variables/selection/%s' % kind, what, site=fl[0][1]['loc'])
+    ctx.analysed('V7', '%d sequences of 1..3 candidate matches over 3 positions x 3 lengths; order-only premise checked in %d blocks of the search loop' % (n, len(inner['body'])))
+
+
+RULES.append(('V7', v7_selection))
